@@ -103,6 +103,13 @@ def run(ck, rng, tier):
         for nth in (1, 2, 4, 8):
             lines.append("boot %d %s %s 2 8 %d %d" % (algo, vf.fmt_mat(X7), vf.fmt_mat(Y7), nth, 2 if not thorough else 5))
             meta.append(("boot", (algo, "7 objects, 2 groups, 8 iterations"), nth))
+    # ... and the classifier (LDA, learner 5): three overlapping classes, so that the predicted class of an object differs between
+    # iterations; 8 iterations in 8 / 4 / 2 batches
+    XL = [[rng.gauss(0, 1) + 1.2 * (i % 3), rng.gauss(0, 1) - 0.8 * (i % 3)] for i in range(30)]
+    YL = [[float(i % 3)] for i in range(30)]
+    for nth in (1, 2, 4):
+        lines.append("boot 5 %s %s 3 8 %d %d" % (vf.fmt_mat(XL), vf.fmt_mat(YL), nth, 2))
+        meta.append(("boot", (5, "LDA, 30 objects in 3 overlapping classes, 3 groups, 8 iterations"), nth))
     # --- y-scrambling (bootstrap and leave-one-out validation inside): thread counts dividing the rounds
     for algo in (4, 0):
         for vtype, rounds, nths in ((1, 6, (1, 2, 3, 6)), (0, 4, (1, 2, 4))):
